@@ -35,3 +35,16 @@ Definition last_content (s : fs) (target : path) (done : list op) : option (list
   | [] => read s target
   | o :: _ => Some (odata o)
   end.
+
+(** ---- FilePath.moveTo when os.rename answers EXDEV (source and destination on different file systems)
+      secsib = destination.temporarySibling(); self.copyTo(secsib)      # O_EXCL create + copy
+      secsib.moveTo(destination)                                        # rename, same file system: atomic
+      mysecsib = self.temporarySibling(); self.moveTo(mysecsib)         # rename the source aside
+      mysecsib.remove()
+    (regular files; the refused first rename changes nothing and is not a step).  The two directories
+    share the flat namespace; [tD] / [tS] are the temporaries next to the destination / the source. *)
+Definition move_prog (s : fs) (src dst tD tS : path) : list step :=
+  match read s src with
+  | Some c => SCreatX tD :: write_steps tD c ++ [SRename tD dst; SRename src tS; SUnlink tS]
+  | None => []
+  end.
